@@ -155,6 +155,7 @@ type Result struct {
 	Inputs        map[string]string          `json:"-"`               // sha of every input file after the run
 	InputsChanged []string                   `json:"inputs_changed,omitempty"`
 	DurMs         float64                    `json:"dur_ms"`
+	SimMs         int64                      `json:"sim_ms,omitempty"` // simulated time that passed during the run (clock reads, sleeps, operation latencies)
 	Race          string                     `json:"race,omitempty"` // race detector report that appeared during this run (race builds only)
 	// concurrent executions only: the peers' results and the order in which the processes were given their turns
 	Peers []*Result `json:"peers,omitempty"`
@@ -685,6 +686,7 @@ func execPhase(t Target, w *World, top string, phase int) *Result {
 		}
 	}
 	res.DurMs = float64(time.Since(t0).Microseconds()) / 1000
+	res.SimMs = ctl.Clock.Sub(time.Unix(w.Clock, 0)).Milliseconds()
 	os.Args = oldArgs
 	restoreEnv()
 
